@@ -117,10 +117,58 @@ contract(
     ],
 )
 
+# ---- chunk_events_by_key (deductive) --------------------------------------------------------------------------------------------
+# The property's domain: a key-bearing sequence (every event has the key), and the key is not the name under which the function
+# itself files the sub-events.  Ghost state: start[c] = position of chunk c's first event, P[i] = total duration of events[:i]
+# (so "durations add up" is C[c].duration == P[start[c+1]] - P[start[c]], without a recursive sum).
+SUBS = "jv_list({C}[{c}].data['subevents'], 'Event')"
+
+
+def chunk_facts(C, k):
+    """Facts about the chunks C built from events[:k] (start: ghost list of the chunks' first positions, P: prefix sums of durations,
+    G[c]: the list object that chunk c holds under 'subevents')."""
+    S = lambda c: SUBS.format(C=C, c=c)
+    m = f"len({C})"
+    return [
+        f"len(start) == {m} and len(G) == {m} and {m} <= {k} and ({k} == 0 or {m} > 0)",
+        f"all(0 <= start[c] and start[c] < {k} for c in range(len(start))) and (len(start) == 0 or start[0] == 0)",
+        "all(start[c] < start[c + 1] for c in range(len(start) - 1))",
+        # the chunks, their data tables and their sub-event lists are objects of this call, all distinct
+        f"all(fresh({C}[c]) and fresh({C}[c].data) and 'subevents' in {C}[c].data and key in {C}[c].data"
+        f"    and isinstance({C}[c].data['subevents'], list) and {S('c')} is G[c] and fresh(G[c]) for c in range({m}))",
+        f"all(allocated({C}[c]) and allocated({C}[c].data) and allocated(G[c]) for c in range({m}))",
+        f"all(G[c] is not {C} and G[c] is not start and G[c] is not P and G[c] is not G for c in range({m}))",
+        f"all({C}[c] is not {C}[d] and {C}[c].data is not {C}[d].data and G[c] is not G[d]"
+        f"    for c in range({m}) for d in range(c + 1, {m}))",
+        # the sub-events of chunk c are the input events start[c] .. start[c+1]-1 (the last chunk: .. k-1): they concatenate back to the input
+        f"all(len(G[c]) == start[c + 1] - start[c] for c in range({m} - 1))",
+        f"{m} == 0 or len(G[{m} - 1]) == {k} - start[{m} - 1]",
+        # (stated for the chunks before the last one and for the last one separately: the bounds are then ghost integers)
+        f"all(G[c][i - start[c]] is events[i] for c in range({m} - 1) for i in range(start[c], start[c + 1]))",
+        f"{m} == 0 or all(G[{m} - 1][i - start[{m} - 1]] is events[i] for i in range(start[{m} - 1], {k}))",
+        # a chunk starts where its first sub-event starts and carries that event's value of the key; every sub-event shares it
+        f"all({C}[c].timestamp == events[start[c]].timestamp and same_value({C}[c].data[key], events[start[c]].data[key]) for c in range({m}))",
+        f"all(events[i].data[key] == {C}[c].data[key] for c in range({m} - 1) for i in range(start[c], start[c + 1]))",
+        f"{m} == 0 or all(events[i].data[key] == {C}[{m} - 1].data[key] for i in range(start[{m} - 1], {k}))",
+        # durations add up (P[i] is the total duration of events[:i])
+        f"all({C}[c].duration == P[start[c + 1]] - P[start[c]] for c in range({m} - 1))",
+        f"{m} == 0 or {C}[{m} - 1].duration == P[{k}] - P[start[{m} - 1]]",
+    ]
+
+
+PSUM = "len(P) == {k} + 1 and P[0] == timedelta(0) and all(P[i + 1] == P[i] + events[i].duration for i in range({k}))"
+
 contract(
     "aw_transform.chunk_events_by_key.chunk_events_by_key",
-    params={"events": "List[Event]", "key": "str"}, returns="List[Event]",
-    requires=["all(key in e.data for e in events)"], ensures=[],
+    params={"events": "List[Event]", "key": "str", "pulsetime": "float"}, returns="List[Event]",
+    requires=["all(key in e.data for e in events)", "key != 'subevents'"],
+    locals={"chunked_events": "List[Event]", "data": "Dict[str,JV]"},
+    ghost_vars={"start": ("List[int]", "[]"), "P": ("List[timedelta]", "[timedelta(0)]"), "G": ("List[List[Event]]", "[]")},
+    ghost_code=[
+        dict(after="chunked_event.data['subevents'].append(event)", code="P.append(P[len(P) - 1] + event.duration)"),
+        dict(after="chunked_events.append(chunked_event)", code="start.append(len(P) - 1)\nG.append(jv_list(data['subevents'], 'Event'))\nP.append(P[len(P) - 1] + event.duration)"),
+    ],
+    ensures=[PSUM.format(k="len(events)")] + chunk_facts("result", "len(events)") + [UNCHANGED],
     native_ensures=[
         # sub-events concatenate back to the input
         "[id(s) for c in result for s in c.data['subevents']] == [id(e) for e in events]",
@@ -130,4 +178,11 @@ contract(
         "total(result) == total(events)",
         UNCHANGED,
     ],
+    modifies=["alloc"], writes_fresh=["*"], raises=[],
+    loops={0: dict(index="k", cut=True, hints=[
+        # the chunks before the last one are as the iteration found them
+        "all(chunked_events[c] is prev(chunked_events[c]) and chunked_events[c].data is prev(chunked_events[c].data)"
+        "    and G[c] is prev(G[c]) and len(G[c]) == prev(len(G[c])) for c in range(len(chunked_events) - 1))",
+        "all(G[c][t] is prev(G[c][t]) for c in range(len(chunked_events) - 1) for t in range(len(G[c])))",
+    ], invariant=[PSUM.format(k="k")] + chunk_facts("chunked_events", "k") + [UNCHANGED])},
 )
